@@ -30,6 +30,7 @@ MC_QUICK = """CONSTANTS
   EsrchFatal = FALSE
   ChildSigsysIgnored = FALSE
   AnyDecision = FALSE
+  ClenPanics = FALSE
   Noise = TRUE
 SPECIFICATION Spec
 VIEW MCView
@@ -52,6 +53,7 @@ MC_LIVE = """CONSTANTS
   EsrchFatal = FALSE
   ChildSigsysIgnored = FALSE
   AnyDecision = FALSE
+  ClenPanics = FALSE
   Noise = FALSE
 SPECIFICATION FairSpec
 PROPERTY Terminates
@@ -78,15 +80,27 @@ def shape(c):
     return ks + ":" + ds
 
 
+# shapes that are replayed in every quick run (kinds per task): each spawn kind with a waited-for
+# child that makes a marker call / is killed by the filter, and the single-task basics
+PINNED = {"T", "K", "S", "TX", "FW/T", "VW/T", "CW/T", "FW/K", "VW/K", "CW/K", "FT/T", "CT/T", "FW/S", "CW/S"}
+
+
+def kinds_of(c):
+    return "/".join("".join(o["k"] for o in t) for t in c["script"])
+
+
 def select_quick(ctx, cases, n):
-    """seeded, stratified by the set of op kinds used: every kind combination gets a chance"""
+    """all pinned shapes + a seeded sample stratified by the set of op kinds used"""
+    out = [c for c in cases if kinds_of(c) in PINNED]
+    cases = [c for c in cases if kinds_of(c) not in PINNED]
+    n = max(0, n - len(out))
     groups = {}
     for c in cases:
         kinds = frozenset(o["k"] for t in c["script"] for o in t) | frozenset(c["dec"].values())
         groups.setdefault(kinds, []).append(c)
     keys = sorted(groups, key=lambda k: sorted(k))
     ctx.rng.shuffle(keys)
-    out = []
+    n += len(out)
     while len(out) < n and keys:
         for k in list(keys):
             g = groups[k]
@@ -132,7 +146,7 @@ def run(ctx):
     cases.sort(key=lambda c: json.dumps(c, sort_keys=True))
     total_cases = len(cases)
     if not t:
-        cases = select_quick(ctx, cases, 70)
+        cases = select_quick(ctx, cases, 90)
     if ctx.replay and ctx.replay.get("case"):
         rc = ctx.replay["case"]
         cases = [{"script": rc.get("script_ops") or [], "dec": rc.get("dec") or {}, "raw": "" if rc.get("script_ops") else rc.get("raw", "")}]
